@@ -478,6 +478,30 @@ let cmd_pg (x : sx) : sx =
          A "complete"; bool_sx (cert_complete pg_entails pg_refutes a cs pres)]
   | _ -> failwith "pg args"
 
+(* ---- table domain automata: traversal on the dump, certificates ---- *)
+let sx_tcons (x : sx) : (n, tpred) constraint0 =
+  match x with
+  | L [p; args] -> { cpred = sx_tpred p; cargs = sx_list sx_n args }
+  | _ -> failwith "tcons"
+
+let cmd_tab (x : sx) : sx =
+  match x with
+  | L [A "tab-run"; host; aut] ->
+      let h = sx_thost host in
+      let d = table_dom h.t_req in
+      let a = sx_automaton sx_n sx_tcons aut in
+      res_sx (fun ms -> sorted_sx (List.map (fun (p, m) -> L [n_sx p; tmap_sx m]) ms)) (run d pg_fuel a h)
+  | L [A "tab-cert"; host; aut; present; css] ->
+      let h = sx_thost host in
+      let d = table_dom h.t_req in
+      let a = sx_automaton sx_n sx_tcons aut in
+      let pres = sx_list sx_bool present in
+      let ids = List.filteri (fun i _ -> List.nth pres i) (List.mapi (fun i _ -> n_of_int i) pres) in
+      let cs = sx_list (fun cs -> sx_list sx_tcons cs) css in
+      L [A "wf"; bool_sx (wf_check d a (compute_rank a) ids && arity_ok d a);
+         A "sound"; bool_sx (lab_ok d (fun _ -> true) t_atoms a (compute_lab d t_atoms a) cs)]
+  | _ -> failwith "tab args"
+
 let dispatch (x : sx) : sx =
   match x with
   | L (A "c12" :: args) -> cmd_c12 args
@@ -489,6 +513,7 @@ let dispatch (x : sx) : sx =
   | L (A "c15" :: args) -> cmd_c15 args
   | L (A ("tree" | "powerset" | "conditioned" | "with-children" | "pairwise" | "transitive") :: _) -> cmd_c10 x
   | L ((A ("aut-run" | "cvec" | "single" | "naive" | "cert" | "occ")) :: _ as args) -> cmd_engine args
+  | L (A ("tab-run" | "tab-cert") :: _) -> cmd_tab x
   | L (A ("pg-opts" | "pg-walk" | "pg-single" | "pg-naive" | "pg-run" | "pg-cert" | "pg-cvec" | "pg-cover" | "pg-hostwf") :: _) -> cmd_pg x
   | _ -> failwith "unknown command"
 
